@@ -58,7 +58,9 @@ def _one(c, bank, N, dtype, seed, variant="generic"):
     if c["log"]:
         ok = np.abs(g - want) <= tol + tol * np.abs(want)
     else:
-        ok = np.abs(g - want) <= tol * np.abs(want) + tol * 1e-3 * (np.max(np.abs(want)) if want.size else 0) + 1e-13
+        # absolute floor: what the RESULT dtype can represent at all (float16 underflows below 6e-8)
+        tiny = 2 * float(np.finfo(np.dtype(dtype)).smallest_subnormal)
+        ok = np.abs(g - want) <= tol * np.abs(want) + tol * 1e-3 * (np.max(np.abs(want)) if want.size else 0) + 1e-13 + tiny
     if not np.all(ok):
         bad = np.argwhere(~ok)[0]
         viol.append(core.violation(
